@@ -514,7 +514,7 @@ func (p *Prov) atomOf(cond ssa.Value, pol bool) Atom {
 	case *ssa.UnOp:
 		if x.Op == token.MUL {
 			if g, ok := x.X.(*ssa.Global); ok {
-				return Atom{Kind: "cfg", Pol: pol, Name: g.Name(), Src: cond}
+				return Atom{Kind: "cfg", Pol: pol, Name: p.c.roleName(g), Src: cond}
 			}
 		}
 		if x.Op == token.NOT {
@@ -547,7 +547,7 @@ func (p *Prov) atomOf(cond ssa.Value, pol bool) Atom {
 			if v, _, ok := nilCompare(x); ok {
 				if ld, isLd := v.(*ssa.UnOp); isLd && ld.Op == token.MUL {
 					if g, isG := ld.X.(*ssa.Global); isG {
-						return Atom{Kind: "cfg", Pol: !eq, Name: g.Name() + "!=nil", Src: cond}
+						return Atom{Kind: "cfg", Pol: !eq, Name: p.c.roleName(g) + "!=nil", Src: cond}
 					}
 				}
 				return Atom{Kind: "nil", Pol: eq, X: v, Src: cond}
